@@ -109,6 +109,18 @@ Theorem C20_schedule_independent : forall ev s cfg x0 flt sch1 sch2 st res1 res2
   run ev s flt cfg x0 sch1 st = Some res1 -> run ev s flt cfg x0 sch2 st = Some res2 -> res1 = res2.
 Proof. exact schedule_independent. Qed.
 
+(* (b) which signal it was is irrelevant: two deaths at the same moment (about to write message k / right after
+   the answer to message k / while waiting for the answer to message k) by DIFFERENT signals give, on every
+   schedule, runs with the same callbacks, the same messages on the wire, the same stored exception and the same
+   liveness of the child; the results are equal, or both are the abnormal-termination error and differ only in
+   the (negative) return code *)
+Theorem C20_signal_irrelevant : forall ev s cfg x0 f1 f2 sch r1 st1,
+  same_moment f1 f2 -> ext_run ev s f1 cfg x0 sch = Some (r1, st1) ->
+  exists r2 st2, ext_run ev s f2 cfg x0 sch = Some (r2, st2) /\
+    (r1 = r2 \/ exists g1 g2 : positive, r1 = Raise (ExDeath (Zneg g1)) /\ r2 = Raise (ExDeath (Zneg g2))) /\
+    s_par st2 = s_par st1 /\ running (s_child st2) = running (s_child st1).
+Proof. exact signal_irrelevant. Qed.
+
 (* non-vacuity: a two-evaluation script; without fault the run returns after both evaluations; a child
    killed (SIGKILL) or terminated (SIGTERM) when about to write its 4th message gives the abnormal-termination
    error after one evaluation; a child that dies right after the last answer -- the run was complete -- still
@@ -152,3 +164,4 @@ Print Assumptions C20_poll_exit.
 Print Assumptions C20_terminates.
 Print Assumptions C20_no_orphan.
 Print Assumptions C20_schedule_independent.
+Print Assumptions C20_signal_irrelevant.
